@@ -134,3 +134,10 @@ Definition aligned_alloc (checked : bool) (min_length : Z) : outcome (Z * Z) :=
   do required <- usize_mul checked units 64;
   if ISIZE_MAX - 63 <? required then Panic PANIC_LAYOUT else
   Ok (required, required / 4).
+
+(* LZEncoderData::get_match_len_fast_reject::<2>(dist, len_limit):
+     match_dist = dist + 1; if rejected return 0; extend_match(buf, read_pos, 2, match_dist, len_limit) *)
+Definition match_len_fast_reject (checked opt : bool) (buf : list Z) (read_pos dist len_limit : Z) : outcome Z :=
+  do md <- i32_add checked dist 1;
+  do rej <- fast_reject checked opt buf (usize_of_i32 read_pos) md;
+  if rej then Ok 0 else extend_match checked opt buf read_pos 2 md len_limit.
